@@ -1,40 +1,31 @@
 (* C45 -- executable Gallina model of the metadata exported by mfront for a declaration and read back through
    tfel::system::ExternalLibraryManager.  Definitions only.
-   Anchors: mfront/src/VariableDescription.cxx (checkAndCompletePhysicalBoundsDeclaration, getExternalName),
-   mfront/src/BehaviourData.cxx (checkAndCompletePhysicalBoundsDeclaration: which containers are completed),
+   Anchors: mfront/src/VariableDescription.cxx (checkAndCompletePhysicalBoundsDeclaration, getExternalName, setBounds,
+   setPhysicalBounds, checkBoundsCompatibility), mfront/src/BehaviourData.cxx (checkAndCompletePhysicalBoundsDeclaration: which
+   containers are completed; reserveName, registerGlossaryName / registerEntryName), mfront/src/BehaviourDescription.cxx
+   (specialised data: getBehaviourData2, setBounds), mfront/src/MaterialPropertyDescription.cxx (setGlossaryName, setEntryName),
    mfront/src/CodeGeneratorUtilities.cxx (writeVariablesNamesSymbol, writeVariablesBoundsSymbols, writeBoundsSymbols,
    writePhysicalBoundsSymbols, writeParametersSymbols), mfront/src/SymbolsGenerator.cxx (generateSymbols),
-   src/System/ExternalLibraryManager.cxx (get*/has* and decomposeVariableName). *)
+   mfront/src/ImplicitDSL.cxx, ImplicitDSLBase.cxx (completeVariableDeclaration, treatEpsilon / treatTheta / treatIterMax),
+   mfront/src/HookeStressPotentialBase.cxx (initialize, completeVariableDeclaration), BehaviourDescription.cxx
+   (setElasticMaterialProperties / declareParameter), mfront/src/BehaviourCodeGeneratorBase.cxx
+   (writeSrcFileParametersInitializer: set, readParameters), mfront/src/MaterialPropertyParametersHandler.cxx,
+   src/System/ExternalLibraryManager.cxx (get*/has*/setParameter and decomposeVariableName). *)
 From Coq Require Import String List ZArith Bool Arith.
 Import ListNotations.
 Local Open Scope string_scope.
 
-(* exact decimal number mant * 10^expo: the model never computes with bound values, it transports them *)
+(* exact decimal number mant * 10^expo: the model never computes with bound values, it transports and compares them *)
 Record dec := mkDec { mant : Z; expo : Z }.
 
 Inductive bnd := Lower (l : dec) | Upper (u : dec) | Both (l u : dec).
 
-Inductive vtype := TScalar | TStensor | TVector | TTensor.
+(* TInt / TUShort: parameters only (codes of <f>_ParametersTypes: 0 real, 1 int, 2 unsigned short).  No keyword of the DSLs
+   declares an int parameter; the only unsigned short one is iterMax (Implicit and isotropic DSLs). *)
+Inductive vtype := TScalar | TStensor | TVector | TTensor | TInt | TUShort.
 
 Definition type_code (t : vtype) : Z :=
-  match t with TScalar => 0 | TStensor => 1 | TVector => 2 | TTensor => 3 end%Z.
-
-Record var := mkVar {
-  vname : string;
-  vgloss : option string;      (* x.setGlossaryName("...") *)
-  ventry : option string;      (* x.setEntryName("...") *)
-  vty : vtype;
-  vsize : nat;                 (* array size; 1 = not an array *)
-  vbounds : option bnd;        (* @Bounds *)
-  vphys : option bnd;          (* @PhysicalBounds *)
-  vdefault : list dec          (* parameters: default value(s), one per array element *)
-}.
-
-(* one line of the glossary dump: physical bounds of entry gkey for unit system gsys *)
-Record gentry := mkG { gkey : string; gsys : string; glow : option dec; gup : option dec }.
-Definition glossary := list gentry.
-
-Inductive kind := MaterialProperty | Behaviour.
+  match t with TScalar => 0 | TStensor => 1 | TVector => 2 | TTensor => 3 | TInt => 1 | TUShort => 2 end%Z.
 
 (* tfel::material::ModellingHypothesis::Hypothesis, in the order of the enumeration *)
 Inductive hyp := AGPStrain | AGPStress | Axisymmetrical | PlaneStress | PlaneStrain | GeneralisedPlaneStrain | Tridimensional.
@@ -48,6 +39,42 @@ Definition all_hyps : list hyp :=
 
 Definition hyp_eqb (a b : hyp) : bool := Nat.eqb (hyp_rank a) (hyp_rank b).
 
+Record var := mkVar {
+  vname : string;
+  vgloss : option string;      (* x.setGlossaryName("...") *)
+  ventry : option string;      (* x.setEntryName("...") *)
+  vty : vtype;
+  vsize : nat;                 (* array size; 1 = not an array *)
+  vbounds : option bnd;        (* @Bounds x in ... *)
+  vphys : option bnd;          (* @PhysicalBounds x in ... *)
+  vdefault : list dec;         (* parameters: default value(s), one per array element *)
+  vebounds : list (nat * bnd); (* @Bounds x[i] in ... (behaviours) *)
+  vephys : list (nat * bnd);   (* @PhysicalBounds x[i] in ...: no DSL accepts it *)
+  vhyps : list hyp             (* @Keyword<H1,H2,...>: the hypotheses the variable is declared for; [] = all of them *)
+}.
+
+(* one line of the glossary dump: physical bounds of entry gkey for unit system gsys *)
+Record gentry := mkG { gkey : string; gsys : string; glow : option dec; gup : option dec }.
+Definition glossary := list gentry.
+
+Inductive kind := MaterialProperty | Behaviour.
+
+(* @Brick StandardElasticity (isotropic) *)
+Inductive brick :=
+| NoBrick
+| BrickMP                      (* no option: Young modulus and Poisson ratio are material properties *)
+| BrickConst (E nu : dec).     (* {young_modulus : E, poisson_ratio : nu}: constants, hence parameters *)
+
+Record implicit := mkImplicit {
+  i_epsilon : option dec;      (* @Epsilon, written right after the header *)
+  i_theta : option dec;        (* @Theta, idem *)
+  i_itermax : option dec;      (* @IterMax, idem *)
+  i_brick : brick;
+  i_brick_pos : nat            (* number of user @Parameter declarations that precede the @Brick line *)
+}.
+
+Inductive dsl := DefaultDSL | ImplicitDSL (o : implicit).
+
 Record decl := mkDecl {
   dkind : kind;
   dunit : option string;       (* @UnitSystem *)
@@ -58,17 +85,26 @@ Record decl := mkDecl {
   dasvs : list var;            (* behaviour: @AuxiliaryStateVariable *)
   desvs : list var;            (* behaviour: @ExternalStateVariable *)
   dparams : list var;          (* @Parameter *)
-  dhyps : list hyp             (* behaviour: @ModellingHypotheses *)
+  dhyps : list hyp;            (* behaviour: @ModellingHypotheses *)
+  ddsl : dsl                   (* behaviour: @DSL Default / Implicit *)
 }.
 
-(* the three places where the generator, as found, loses metadata (each is a finding of this property);
+(* the places where the front-end / generator, as found, departs from the property (each is a finding of this property);
    false = repaired *)
 Record variant := mkVariant {
   mp_phys_needs_bounds : bool;     (* writeVariablesBoundsSymbols: `continue` when an input has no @Bounds *)
   array_bounds_unreadable : bool;  (* "_mfront_index_<i>_" + "_LowerBound": name never looked up by the reader *)
-  persistent_not_completed : bool  (* BehaviourData::checkAndComplete...: persistentVariables copies are skipped *)
+  persistent_not_completed : bool; (* BehaviourData::checkAndComplete...: persistentVariables copies are skipped *)
+  index_off_by_one : bool;         (* VariableDescription::setBounds(b, i): `i > arraySize` instead of `i >= arraySize` *)
+  mp_names_unchecked : bool        (* MaterialPropertyDescription::setEntryName / setGlossaryName / reserveName: an external
+                                      name may be the name of another variable *)
 }.
-Definition repaired := mkVariant false false false.
+Definition repaired := mkVariant false false false false false.
+
+(* ---------------------------------------------------------------- decimals *)
+Definition dec_leb (a b : dec) : bool :=
+  let m := Z.min (expo a) (expo b) in Z.leb (mant a * 10 ^ (expo a - m)) (mant b * 10 ^ (expo b - m)).
+Definition dec_tenth (a : dec) : dec := mkDec (mant a) (expo a - 1).
 
 (* ---------------------------------------------------------------- names *)
 Definition ext_name (v : var) : string :=
@@ -99,10 +135,18 @@ Definition complete (g : glossary) (unit : option string) (v : var) : option bnd
       end
   end.
 
+(* ---------------------------------------------------------------- bounds of the elements of a variable *)
+Definition elem_decl (l : list (nat * bnd)) (i : nat) : option bnd :=
+  option_map snd (find (fun p => Nat.eqb (fst p) i) l).
+
+(* @Bounds x in ... applies to every element; otherwise the per-element declaration, if any *)
+Definition elem_bounds (v : var) (i : nat) : option bnd :=
+  match vbounds v with Some b => Some b | None => elem_decl (vebounds v) i end.
+
 (* ---------------------------------------------------------------- exported metadata of one variable *)
 Record vmeta := mkMeta {
   m_ext : string; m_code : Z; m_size : nat;
-  m_bounds : option bnd; m_phys : option bnd;   (* as read back, for every element of an array variable *)
+  m_bounds : list (option bnd); m_phys : list (option bnd);   (* as read back, one answer per element *)
   m_def : list dec
 }.
 
@@ -112,8 +156,8 @@ Definition hide_arrays (vr : variant) (v : var) (b : option bnd) : option bnd :=
 (* completed = does the container the symbols are written from see the completion? *)
 Definition meta (vr : variant) (g : glossary) (unit : option string) (completed : bool) (v : var) : vmeta :=
   mkMeta (ext_name v) (type_code (vty v)) (vsize v)
-         (hide_arrays vr v (vbounds v))
-         (hide_arrays vr v (if completed then complete g unit v else vphys v))
+         (map (fun i => hide_arrays vr v (elem_bounds v i)) (seq 0 (vsize v)))
+         (map (fun _ => hide_arrays vr v (if completed then complete g unit v else vphys v)) (seq 0 (vsize v)))
          (vdefault v).
 
 (* input of a material property *)
@@ -122,16 +166,68 @@ Definition meta_input (vr : variant) (g : glossary) (unit : option string) (v : 
   if mp_phys_needs_bounds vr then
     match vbounds v with
     | Some _ => m
-    | None => mkMeta (m_ext m) (m_code m) (m_size m) (m_bounds m) None (m_def m)
+    | None => mkMeta (m_ext m) (m_code m) (m_size m) (m_bounds m) (map (fun _ => None) (m_phys m)) (m_def m)
     end
   else m.
 
-(* ---------------------------------------------------------------- what the DSL adds *)
-Definition temperature_var : var := mkVar "T" (Some "Temperature") None TScalar 1 None None [].
+(* ---------------------------------------------------------------- what the DSLs and the brick add *)
+Definition plain (n : string) (g e : option string) (t : vtype) (def : list dec) : var :=
+  mkVar n g e t 1 None None def [] [] [].
+
+Definition temperature_var : var := plain "T" (Some "Temperature") None TScalar [].
 
 Definition builtin_parameters : list var :=
-  [ mkVar "minimal_time_step_scaling_factor" None None TScalar 1 None None [mkDec 1 (-1)];
-    mkVar "maximal_time_step_scaling_factor" None None TScalar 1 None None [mkDec 17976931348623 295] ].
+  [ plain "minimal_time_step_scaling_factor" None None TScalar [mkDec 1 (-1)];
+    plain "maximal_time_step_scaling_factor" None None TScalar [mkDec 17976931348623 295] ].
+
+(* ImplicitDSL::ImplicitDSL *)
+Definition eel_var : var := plain "eel" (Some "ElasticStrain") None TStensor [].
+
+(* HookeStressPotentialBase::completeVariableDeclaration: addMaterialPropertyIfNotDefined *)
+Definition brick_mps (b : brick) : list var :=
+  match b with
+  | BrickMP => [ plain "young" (Some "YoungModulus") None TScalar []; plain "nu" (Some "PoissonRatio") None TScalar [] ]
+  | _ => []
+  end.
+
+(* HookeStressPotentialBase::initialize (called when @Brick is read): constant elastic properties become parameters
+   (BehaviourDescription::setElasticMaterialProperties), then the relative stress criterion *)
+Definition brick_params (b : brick) : list var :=
+  match b with
+  | NoBrick => []
+  | BrickMP => [ plain "relative_value_for_the_equivalent_stress_lower_bound" None
+                       (Some "RelativeValueForTheEquivalentStressLowerBoundDefinition") TScalar [mkDec 1 (-12)] ]
+  | BrickConst E nu =>
+      [ plain "young" (Some "YoungModulus") None TScalar [E]; plain "nu" (Some "PoissonRatio") None TScalar [nu];
+        plain "relative_value_for_the_equivalent_stress_lower_bound" None
+              (Some "RelativeValueForTheEquivalentStressLowerBoundDefinition") TScalar [mkDec 1 (-12)] ]
+  end.
+
+Definition opt_list {A : Type} (o : option A) (f : A -> var) : list var := match o with Some a => [f a] | None => [] end.
+Definition none_list {A : Type} (o : option A) (v : var) : list var := match o with Some _ => [] | None => [v] end.
+
+Definition epsilon_var (x : dec) : var := plain "epsilon" None (Some "epsilon") TScalar [x].
+Definition theta_var (x : dec) : var := plain "theta" None (Some "theta") TScalar [x].
+Definition itermax_var (x : dec) : var := plain "iterMax" None None TUShort [x].
+Definition epsilon_value (o : implicit) : dec := match i_epsilon o with Some x => x | None => mkDec 1 (-8) end.
+
+(* ImplicitDSLBase::treatEpsilon / treatTheta / treatIterMax: declared where the keyword stands (here: before the user's) *)
+Definition implicit_pre (o : implicit) : list var :=
+  opt_list (i_epsilon o) epsilon_var ++ opt_list (i_theta o) theta_var ++ opt_list (i_itermax o) itermax_var.
+
+(* ImplicitDSLBase::completeVariableDeclaration (Newton-Raphson solver: the jacobian is used) *)
+Definition implicit_post (o : implicit) : list var :=
+  none_list (i_epsilon o) (epsilon_var (mkDec 1 (-8))) ++ none_list (i_theta o) (theta_var (mkDec 5 (-1)))
+  ++ [ plain "numerical_jacobian_epsilon" None None TScalar [dec_tenth (epsilon_value o)] ]
+  ++ none_list (i_itermax o) (itermax_var (mkDec 100 0)).
+
+Definition dsl_svs (s : dsl) (l : list var) : list var := match s with ImplicitDSL _ => eel_var :: l | DefaultDSL => l end.
+Definition dsl_mps (s : dsl) (l : list var) : list var := match s with ImplicitDSL o => l ++ brick_mps (i_brick o) | DefaultDSL => l end.
+Definition dsl_params (s : dsl) (l : list var) : list var :=
+  match s with
+  | ImplicitDSL o => implicit_pre o ++ firstn (i_brick_pos o) l ++ brick_params (i_brick o) ++ skipn (i_brick_pos o) l ++ implicit_post o
+  | DefaultDSL => l
+  end ++ builtin_parameters.
 
 Definition hyps_exported (l : list hyp) : list hyp :=
   filter (fun h => existsb (hyp_eqb h) l) all_hyps.      (* std::set<Hypothesis>: enumeration order, no duplicates *)
@@ -160,12 +256,25 @@ Definition symbols (vr : variant) (g : glossary) (d : decl) : table :=
               (map (meta vr g u true) (dparams d))
   | Behaviour =>
       mkTable 1 us "" [] (hyps_exported (dhyps d))
-              (map (meta vr g u true) (dmps d))
-              (map (meta vr g u (negb (persistent_not_completed vr))) (dsvs d ++ dasvs d))
+              (map (meta vr g u true) (dsl_mps (ddsl d) (dmps d)))
+              (map (meta vr g u (negb (persistent_not_completed vr))) (dsl_svs (ddsl d) (dsvs d) ++ dasvs d))
               (map (meta vr g u true) (desvs d))
               (Some (meta vr g u true temperature_var))
-              (map (meta vr g u true) (dparams d ++ builtin_parameters))
+              (map (meta vr g u true) (dsl_params (ddsl d) (dparams d)))
   end.
+
+(* ---------------------------------------------------------------- hypothesis-specialised declarations *)
+Definition declared_for (h : hyp) (v : var) : bool :=
+  match vhyps v with [] => true | l => existsb (hyp_eqb h) l end.
+
+(* the declaration as seen under hypothesis h (BehaviourDescription::getBehaviourData(h)): declaration order is kept *)
+Definition restrict (h : hyp) (d : decl) : decl :=
+  let f := filter (declared_for h) in
+  mkDecl (dkind d) (dunit d) (doutput d) (dinputs d) (f (dmps d)) (f (dsvs d)) (f (dasvs d)) (f (desvs d)) (f (dparams d))
+         (dhyps d) (ddsl d).
+
+(* what ExternalLibraryManager answers for hypothesis h *)
+Definition symbols_at (vr : variant) (g : glossary) (d : decl) (h : hyp) : table := symbols vr g (restrict h d).
 
 (* names as exported: "ext" or "ext[0]" ... "ext[n-1]" -- kept as (ext, index) pairs, the bracket syntax is printing *)
 Definition expand (m : vmeta) : list (string * option nat) :=
@@ -173,6 +282,190 @@ Definition expand (m : vmeta) : list (string * option nat) :=
 
 Definition expanded_names (l : list vmeta) : list (string * option nat) := flat_map expand l.
 Definition expanded_types (l : list vmeta) : list Z := flat_map (fun m => repeat (m_code m) (m_size m)) l.
+
+(* ---------------------------------------------------------------- parameters at run time *)
+(* one slot per parameter element, held by the singleton <Class>[<Hypothesis>]ParametersInitializer (behaviours) or
+   <law>MaterialPropertyParametersHandler (material properties) *)
+Inductive pkind := KReal | KInt | KUShort.
+Definition pkind_eqb (a b : pkind) : bool :=
+  match a, b with KReal, KReal => true | KInt, KInt => true | KUShort, KUShort => true | _, _ => false end.
+Definition pkind_of (t : vtype) : pkind := match t with TInt => KInt | TUShort => KUShort | _ => KReal end.
+
+Definition pkey := (string * option nat)%type.       (* "name" or "name[i]" *)
+
+Record pslot := mkSlot {
+  s_owner : list hyp;          (* [] = the member of the class shared by every hypothesis *)
+  s_name : string;             (* external name *)
+  s_alias : option string;     (* material properties: the variable name is accepted as well *)
+  s_kind : pkind;
+  s_vals : list dec            (* one value per array element *)
+}.
+Definition store := list pslot.
+
+Definition zero : dec := mkDec 0 0.
+Definition pad (v : var) : list dec := map (fun i => nth i (vdefault v) zero) (seq 0 (vsize v)).
+
+Definition slot_of (mp : bool) (v : var) : pslot :=
+  mkSlot (vhyps v) (ext_name v) (if mp then Some (vname v) else None) (pkind_of (vty v)) (pad v).
+
+(* state of a freshly loaded library generated from a parameter list *)
+Definition store_of (mp : bool) (params : list var) : store := map (slot_of mp) params.
+
+(* h = None: material property (one store); Some h: the behaviour under hypothesis h *)
+Definition slot_visible (h : option hyp) (s : pslot) : bool :=
+  match s_owner s with
+  | [] => true
+  | l => match h with Some x => existsb (hyp_eqb x) l | None => false end
+  end.
+
+Definition idx_ok (i : option nat) (n : nat) : bool :=
+  match i with None => Nat.eqb n 1 | Some j => negb (Nat.eqb n 1) && Nat.ltb j n end.
+
+Definition slot_matches (h : option hyp) (k : pkind) (key : pkey) (s : pslot) : bool :=
+  slot_visible h s && pkind_eqb k (s_kind s) &&
+  ((String.eqb (fst key) (s_name s) && idx_ok (snd key) (length (s_vals s))) ||
+   match s_alias s, snd key with Some a, None => String.eqb a (fst key) && Nat.eqb (length (s_vals s)) 1 | _, _ => false end).
+
+Definition set_nth {A : Type} (i : nat) (x : A) (l : list A) : list A := firstn i l ++ x :: skipn (Datatypes.S i) l.
+Definition key_index (key : pkey) : nat := match snd key with Some i => i | None => 0 end.
+
+(* <f>[_<h>]_set{,Integer,UnsignedShort}Parameter(key, x): the first matching member of that type is assigned;
+   None = the call fails (unknown name, or name of a parameter of another type) *)
+Fixpoint set_param (st : store) (h : option hyp) (k : pkind) (key : pkey) (x : dec) : option store :=
+  match st with
+  | [] => None
+  | s :: r =>
+      if slot_matches h k key s
+      then Some (mkSlot (s_owner s) (s_name s) (s_alias s) (s_kind s) (set_nth (key_index key) x (s_vals s)) :: r)
+      else option_map (cons s) (set_param r h k key x)
+  end.
+
+(* what the code computes with under hypothesis h: one line per parameter element, in the order of the declarations *)
+Definition slot_view (s : pslot) : list (pkey * pkind * dec) :=
+  map (fun i => ((s_name s, if Nat.eqb (length (s_vals s)) 1 then None else Some i), s_kind s, nth i (s_vals s) zero))
+      (seq 0 (length (s_vals s))).
+Definition view (st : store) (h : option hyp) : list (pkey * pkind * dec) :=
+  flat_map slot_view (filter (slot_visible h) st).
+
+(* the parameter list of the source file in which that default value was edited *)
+Definition with_default (v : var) (i : nat) (x : dec) : var :=
+  mkVar (vname v) (vgloss v) (ventry v) (vty v) (vsize v) (vbounds v) (vphys v) (set_nth i x (pad v)) (vebounds v) (vephys v) (vhyps v).
+
+Fixpoint set_default (mp : bool) (params : list var) (h : option hyp) (k : pkind) (key : pkey) (x : dec) : option (list var) :=
+  match params with
+  | [] => None
+  | v :: r =>
+      if slot_matches h k key (slot_of mp v) then Some (with_default v (key_index key) x :: r)
+      else option_map (cons v) (set_default mp r h k key x)
+  end.
+
+(* <Class>-parameters.txt / <Class><Hypothesis>-parameters.txt / <law>-parameters.txt in the current directory: one
+   `name value` pair per line, read when the singleton is built; an unknown name is an error *)
+Fixpoint load_file (st : store) (h : option hyp) (lines : list (pkind * pkey * dec)) : option store :=
+  match lines with
+  | [] => Some st
+  | (k, key, x) :: r => match set_param st h k key x with Some st' => load_file st' h r | None => None end
+  end.
+
+Fixpoint edit_defaults (mp : bool) (params : list var) (h : option hyp) (lines : list (pkind * pkey * dec)) : option (list var) :=
+  match lines with
+  | [] => Some params
+  | (k, key, x) :: r => match set_default mp params h k key x with Some p' => edit_defaults mp p' h r | None => None end
+  end.
+
+(* the parameter list of a declaration, as elaborated by the DSL, under hypothesis h *)
+Definition params_of (d : decl) : list var :=
+  match dkind d with MaterialProperty => dparams d | Behaviour => dsl_params (ddsl d) (dparams d) end.
+Definition is_mp (d : decl) : bool := match dkind d with MaterialProperty => true | Behaviour => false end.
+
+(* ---------------------------------------------------------------- which declarations the front-end accepts *)
+Definition bnd_ordered (b : bnd) : bool := match b with Both l u => dec_leb l u | _ => true end.
+
+(* checkBoundsCompatibility(standard, physical): the standard bounds have every side the physical bounds have, and lie inside.
+   (As coded the comparison also runs against the unset side of the physical bounds, whose default value is
+   numeric_limits<long double>::min() / max(): `@PhysicalBounds x in ]*:1]; @Bounds x in [-1:1];` is refused.  That quirk is
+   examined under C27 / C38; it is NOT part of this predicate and the generator of the check avoids the combination.) *)
+Definition contained (b p : bnd) : bool :=
+  match p with
+  | Lower pl => match b with Lower l | Both l _ => dec_leb pl l | Upper _ => false end
+  | Upper pu => match b with Upper u | Both _ u => dec_leb u pu | Lower _ => false end
+  | Both pl pu => match b with Both l u => dec_leb pl l && dec_leb u pu | _ => false end
+  end.
+
+Definition contained_opt (b : bnd) (p : option bnd) : bool := match p with Some q => contained b q | None => true end.
+
+Fixpoint nodupb {A : Type} (eqb : A -> A -> bool) (l : list A) : bool :=
+  match l with [] => true | a :: r => negb (existsb (eqb a) r) && nodupb eqb r end.
+
+Definition gloss_known (g : glossary) (k : string) : bool := existsb (fun e => String.eqb (gkey e) k) g.
+
+(* bounds of one variable.  arrays: may the variable be an array and carry per-element bounds (behaviours) *)
+Definition var_bounds_ok (vr : variant) (g : glossary) (unit : option string) (arrays : bool) (v : var) : bool :=
+  let p := complete g unit v in
+  match vbounds v with Some b => bnd_ordered b && contained_opt b p | None => true end
+  && match vphys v with Some b => bnd_ordered b | None => true end
+  && match vephys v with [] => true | _ => false end
+  && match vebounds v with
+     | [] => true
+     | l => arrays && negb (Nat.eqb (vsize v) 1) && match vbounds v with None => true | Some _ => false end
+            && nodupb Nat.eqb (map fst l)
+            && forallb (fun q => (if index_off_by_one vr then Nat.leb (fst q) (vsize v) else Nat.ltb (fst q) (vsize v))
+                                 && bnd_ordered (snd q) && contained_opt (snd q) p) l
+     end.
+
+Definition var_names_ok (g : glossary) (v : var) : bool :=
+  match vgloss v with Some k => gloss_known g k && match ventry v with None => true | Some _ => false end | None => true end
+  && match ventry v with Some e => negb (gloss_known g e) | None => true end.
+
+(* two variables living in the same scope: neither the name nor the external name of one is the name or the external
+   name of the other.  Material properties as found only compare name with name, glossary name with glossary name and
+   entry name with entry name. *)
+Definition opt_eqb (a b : option string) : bool :=
+  match a, b with Some x, Some y => String.eqb x y | _, _ => false end.
+Definition clash (loose : bool) (v w : var) : bool :=
+  if loose then String.eqb (vname v) (vname w) || opt_eqb (vgloss v) (vgloss w) || opt_eqb (ventry v) (ventry w)
+  else String.eqb (vname v) (vname w) || String.eqb (vname v) (ext_name w) || String.eqb (ext_name v) (vname w)
+       || String.eqb (ext_name v) (ext_name w).
+
+Fixpoint no_clash (loose : bool) (l : list var) : bool :=
+  match l with [] => true | v :: r => negb (existsb (clash loose v) r) && no_clash loose r end.
+
+(* behaviours also refuse a variable whose name is a glossary key (`negb (gloss_known g (vname v))` below) *)
+(* a sample of the names the DSLs reserve (BehaviourDSLCommon::registerDefaultVarNames, DSLBase: C++ types) *)
+Definition reserved_behaviour : list string := ["dt"; "T"; "sig"; "eto"; "D"; "N"; "smt"; "real"].
+Definition reserved_mp : list string := ["real"].
+Definition not_reserved (l : list string) (v : var) : bool := negb (existsb (String.eqb (vname v)) l).
+
+Definition sizes_ok (param : bool) (v : var) : bool :=
+  negb (Nat.eqb (vsize v) 0) && (if param then Nat.eqb (length (vdefault v)) (vsize v) else true).
+
+Definition all_vars (d : decl) : list var :=
+  match dkind d with
+  | MaterialProperty => doutput d :: dinputs d ++ dparams d
+  | Behaviour => dsl_mps (ddsl d) (dmps d) ++ dsl_svs (ddsl d) (dsvs d) ++ dasvs d ++ temperature_var :: desvs d
+                 ++ dsl_params (ddsl d) (dparams d)
+  end.
+
+Definition subset_hyps (l m : list hyp) : bool := forallb (fun h => existsb (hyp_eqb h) m) l.
+
+Definition accepts (vr : variant) (g : glossary) (d : decl) : bool :=
+  match dunit d with Some s => String.eqb s "SI" | None => true end &&
+  match dkind d with
+  | MaterialProperty =>
+      forallb (fun v => Nat.eqb (vsize v) 1 && var_names_ok g v && not_reserved reserved_mp v
+                        && match vhyps v with [] => true | _ => false end) (all_vars d)
+      && forallb (var_bounds_ok vr g (dunit d) false) (doutput d :: dinputs d)
+      && forallb (fun v => sizes_ok true v && match vbounds v, vphys v, vebounds v, vephys v with None, None, [], [] => true | _, _, _, _ => false end)
+                 (dparams d)
+      && no_clash (mp_names_unchecked vr) (all_vars d)
+  | Behaviour =>
+      negb (match dhyps d with [] => true | _ => false end) && nodupb hyp_eqb (dhyps d)
+      && forallb (fun v => var_names_ok g v && negb (gloss_known g (vname v)) && not_reserved reserved_behaviour v && subset_hyps (vhyps v) (dhyps d))
+                 (dmps d ++ dsvs d ++ dasvs d ++ desvs d ++ dparams d)
+      && forallb (var_bounds_ok vr g (dunit d) true) (all_vars d)
+      && forallb (sizes_ok false) (dmps d ++ dsvs d ++ dasvs d ++ desvs d) && forallb (sizes_ok true) (dparams d)
+      && forallb (fun h => no_clash false (all_vars (restrict h d))) (dhyps d)
+  end.
 
 (* ---------------------------------------------------------------- rendering for the comparison with the real code *)
 Inductive tok := S (s : string) | K (n : Z) | N (m e : Z).
@@ -186,7 +479,9 @@ Definition r_bnd (b : option bnd) : list tok :=
   end%Z.
 
 Definition r_meta (m : vmeta) : list tok :=
-  [S (m_ext m); K (m_code m); K (Z.of_nat (m_size m))] ++ r_bnd (m_bounds m) ++ r_bnd (m_phys m)
+  [S (m_ext m); K (m_code m); K (Z.of_nat (m_size m))]
+  ++ [K (Z.of_nat (length (m_bounds m)))] ++ flat_map r_bnd (m_bounds m)
+  ++ [K (Z.of_nat (length (m_phys m)))] ++ flat_map r_bnd (m_phys m)
   ++ [K (Z.of_nat (length (m_def m)))] ++ map (fun x => N (mant x) (expo x)) (m_def m).
 
 Definition r_list (l : list vmeta) : list tok := K (Z.of_nat (length l)) :: flat_map r_meta l.
@@ -202,3 +497,10 @@ Definition render (t : table) : list tok :=
   [K (t_kind t); S (t_unit t); S (t_output t)] ++ r_list (t_args t)
   ++ [K (Z.of_nat (length (t_hyps t)))] ++ map (fun h => S (hyp_name h)) (t_hyps t)
   ++ r_list (t_mps t) ++ r_list (t_isvs t) ++ r_list (t_esvs t) ++ match t_temperature t with Some m => r_meta m | None => [] end ++ r_list (t_params t).
+
+Definition r_kind (k : pkind) : Z := match k with KReal => 0 | KInt => 1 | KUShort => 2 end%Z.
+Definition r_key (k : pkey) : list tok := [S (fst k); K (match snd k with Some i => Z.of_nat i | None => -1 end)%Z].
+Definition r_view (l : list (pkey * pkind * dec)) : list tok :=
+  K (Z.of_nat (length l)) :: flat_map (fun e => (r_key (fst (fst e)) ++ [K (r_kind (snd (fst e))); N (mant (snd e)) (expo (snd e))])%list) l.
+Definition r_store (o : option store) (h : option hyp) : list tok :=
+  match o with Some st => K 1 :: r_view (view st h) | None => [K 0] end%Z.
